@@ -254,10 +254,37 @@ def decimalDigits : Nat → Nat → List Nat
 
 /-- the attribute texts on which the real `handlePayload` is probed by `harness facts` (the same
 list, in the same order, is in `harness/c15/facts.go`) -/
-def seqAttrUniverse : List String :=
-  ["0", "1", "2", "65535", "65536", "65537", "65538", "131072", "131073", "4294967296", "4294967297",
-   "18446744073709551616", "18446744073709551617", "00", "01", "0001", "000000000000000000001",
-   "", "-1", "-0", "+1", " 1", "1 ", "0x1", "1.0", "1e0", "one", "١"]
+def seqAttrUniverse : List Bytes :=
+  [
+   [48],  -- '0'
+   [49],  -- '1'
+   [50],  -- '2'
+   [54, 53, 53, 51, 53],  -- '65535'
+   [54, 53, 53, 51, 54],  -- '65536'
+   [54, 53, 53, 51, 55],  -- '65537'
+   [54, 53, 53, 51, 56],  -- '65538'
+   [49, 51, 49, 48, 55, 50],  -- '131072'
+   [49, 51, 49, 48, 55, 51],  -- '131073'
+   [52, 50, 57, 52, 57, 54, 55, 50, 57, 54],  -- '4294967296'
+   [52, 50, 57, 52, 57, 54, 55, 50, 57, 55],  -- '4294967297'
+   [49, 56, 52, 52, 54, 55, 52, 52, 48, 55, 51, 55, 48, 57, 53, 53, 49, 54, 49, 54],  -- '18446744073709551616'
+   [49, 56, 52, 52, 54, 55, 52, 52, 48, 55, 51, 55, 48, 57, 53, 53, 49, 54, 49, 55],  -- '18446744073709551617'
+   [48, 48],  -- '00'
+   [48, 49],  -- '01'
+   [48, 48, 48, 49],  -- '0001'
+   [48, 48, 48, 48, 48, 48, 48, 48, 48, 48, 48, 48, 48, 48, 48, 48, 48, 48, 48, 48, 49],  -- '000000000000000000001'
+   [],  -- ''
+   [45, 49],  -- '-1'
+   [45, 48],  -- '-0'
+   [43, 49],  -- '+1'
+   [32, 49],  -- ' 1'
+   [49, 32],  -- '1 '
+   [48, 120, 49],  -- '0x1'
+   [49, 46, 48],  -- '1.0'
+   [49, 101, 48],  -- '1e0'
+   [111, 110, 101],  -- 'one'
+   [217, 161]  -- '١'
+  ]
 
 def showReply : Reply → String
   | .ack => "ack" | .itemNotFound => "inf" | .unexpectedRequest => "unx"
@@ -265,7 +292,7 @@ def showReply : Reply → String
 
 /-- the model's answer to one probe: a live stream that expects packet `expected`, a packet with
 that attribute text and the payload `QQ==` -/
-def seqAttrModel (expected : Nat) (attr : String) : String :=
-  showReply (recvWire std ⟨true, expected, [], 0⟩ ⟨true, attr.toUTF8.toList, [81, 81, 61, 61]⟩).2
+def seqAttrModel (expected : Nat) (attr : Bytes) : String :=
+  showReply (recvWire std ⟨true, expected, [], 0⟩ ⟨true, attr, [81, 81, 61, 61]⟩).2
 
 end XmppModel.Ibb
